@@ -196,8 +196,9 @@ CHECKS["C14"] = {
     "units": [
         {"pkg": _SS, "run": "^TestVerif_C14_", Q: {"timeout": 600}, T: {"timeout": 3400, "shards": 12}},
         {"pkg": ".", "run": "^TestVerif_C14_", Q: {"timeout": 900}, T: {"timeout": 3400, "shards": 8}},
+        {"pkg": _SS, "run": "^TestVerifCtl_C14_", "inst": ["pkg/secretstore/secret_store_messages.go"], Q: {"timeout": 600}, T: {"timeout": 3400, "shards": 8}},
     ],
-    "mandatory_labels": {"all": ["log-then-push", "push-then-log", "push-twice", "near-reference-edge", "tampered", "two-senders", "two-groups", "default-windows", "bitflip-sweep", "insider-forged-push", "stores/push-before-log", "stores/push-after-log"]},
+    "mandatory_labels": {"all": ["log-then-push", "push-then-log", "push-twice", "near-reference-edge", "tampered", "two-senders", "two-groups", "default-windows", "bitflip-sweep", "insider-forged-push", "stores/push-before-log", "stores/push-after-log", "concurrent/dfs-schedules", "concurrent/interleaved-log-and-push"]},
 }
 
 CHECKS["C05"] = {
@@ -355,7 +356,7 @@ CHECKS["C20"] = {
     "units": [
         {"pkg": ".", "run": "^TestVerif_C20_", "shrinktime": "5s", Q: {"timeout": 1200}, T: {"timeout": 3400, "shards": 12}},
     ],
-    "mandatory_labels": {"all": ["round-trip", "round-trip/several-groups", "mutant/rejected", "mutant/entry-byte-flip", "mutant/key-duplicated", "mutant/existing-account"]},
+    "mandatory_labels": {"all": ["round-trip", "round-trip/several-groups", "round-trip/contact-group", "mutant/rejected", "mutant/entry-byte-flip", "mutant/key-duplicated", "mutant/existing-account"]},
 }
 
 CHECKS["C08"] = {
